@@ -1,13 +1,13 @@
 SPECIFICATION Spec
 CONSTANTS
-  Langs = {"en", "es"}
+  Langs = {"en"}
   Codes = {"Nemeth"}
   MaxClock = 3
   RegionSharesRules = TRUE
   Faults = TRUE
   MaxDamage = 1
   FailedLoadKeepsRecord = FALSE
-  RepointKeepsTables = FALSE
+  RepointKeepsTables = TRUE
   FullFlagInverted = FALSE
 INVARIANTS TypeOK RecoveredUnderAll NoErrorWhenAllGood RecoveredAfterRepoint
 CHECK_DEADLOCK FALSE
